@@ -299,10 +299,17 @@ pub fn run_cell(cell: &Cell, scratch: &Scratch) -> CellOut {
         if recall < 0.80 {
             out.viol.push((format!("C16|recall-below-floor|{route}|{}", cell.metric), json!({"engine":"seqmc","check":"C16","cell": cell, "route": route, "recall": recall})));
         }
-        // determinism: repeat every query from another thread
+        // determinism: repeat every query from another thread — through the entry point that
+        // carries a cancellation token (what the timed path / Search RPC always does), with a token
+        // that never fires: an unfired token must not change what a search returns
         let b2 = b.clone();
         let qs = queries.clone();
-        let second: Vec<Vec<(u64, u32)>> = std::thread::spawn(move || qs.iter().map(|q| b2.knn_search(q, K).unwrap_or_default().iter().map(|r| (r.doc_id, r.distance.to_bits())).collect()).collect()).join().unwrap();
+        let second: Vec<Vec<(u64, u32)>> = std::thread::spawn(move || {
+            let unfired = std::sync::atomic::AtomicBool::new(false);
+            qs.iter().map(|q| b2.knn_search_with_ef_cancel(q, K, None, Some(&unfired)).unwrap_or_default().iter().map(|r| (r.doc_id, r.distance.to_bits())).collect()).collect()
+        })
+        .join()
+        .unwrap();
         for qi in 0..NQ {
             out.searches += 1;
             let d1: Vec<u32> = first[qi].iter().map(|x| x.1).collect();
